@@ -205,6 +205,54 @@ func (r *c10Run) do(op []string) bool {
 		} else {
 			r.t.Op(a, strconv.FormatInt(scanned, 10))
 		}
+	case len(a) >= 7 && a[0] == "job":
+		// the periodic job as wired by addJob: defaults applied, ticker on the injected clock, the policy
+		// passed to cleanup(), which reads the real disk usage and dispatches.  The usage the dispatcher
+		// sees is measured here and recorded (environment observation).
+		interval, e0 := strconv.ParseInt(a[1], 10, 64)
+		tti, e1 := strconv.ParseInt(a[2], 10, 64)
+		ttl, e2 := strconv.ParseInt(a[3], 10, 64)
+		athr, e3 := strconv.Atoi(a[4])
+		attl, e4 := strconv.ParseInt(a[5], 10, 64)
+		lower, e5 := strconv.Atoi(a[6])
+		if e0 != nil || e1 != nil || e2 != nil || e3 != nil || e4 != nil || e5 != nil || interval <= 0 || interval > int64(100*time.Hour) ||
+			athr < 0 || lower < 0 || lower > 100 {
+			return false
+		}
+		du, err := diskspaceutil.Usage()
+		if err != nil {
+			return false
+		}
+		// bytes on disk before the pass: what every mode of cleanup() reports as usage when it has returned
+		var before int64
+		filepath.Walk(r.dir, func(p string, fi os.FileInfo, err error) error {
+			if err == nil && !fi.IsDir() && fi.Name() == base.DefaultDataFileName {
+				before += fi.Size()
+			}
+			return nil
+		})
+		scope := tally.NewTestScope("", nil)
+		m := newCleanupManager(r.clk, scope)
+		m.addJob("verif", CleanupConfig{Interval: time.Duration(interval), TTI: time.Duration(tti), TTL: time.Duration(ttl),
+			AggressiveThreshold: athr, AggressiveTTL: time.Duration(attl), AggressiveLowerThreshold: lower}, r.op())
+		r.clk.Add(time.Duration(interval)) // the ticker fires once
+		// the job sets its disk_usage gauge to the scanned bytes when the pass has returned
+		ran := "timeout"
+		deadline := time.Now().Add(10 * time.Second)
+		if before == 0 {
+			time.Sleep(5 * time.Millisecond) // nothing on disk: nothing the pass could change
+			ran = "ran"
+		}
+		for ran != "ran" && !time.Now().After(deadline) {
+			for _, g := range scope.Snapshot().Gauges() {
+				if g.Name() == "disk_usage" && g.Value() > 0 {
+					ran = "ran"
+				}
+			}
+			time.Sleep(100 * time.Microsecond)
+		}
+		m.stop()
+		r.t.Op([]string{"job", a[1], a[2], a[3], a[4], a[5], a[6], strconv.Itoa(du.Util), strconv.FormatUint(du.TotalBytes, 10), strconv.FormatUint(du.UsedBytes, 10)}, ran)
 	case len(a) == 4 && a[0] == "cleanuppolicy":
 		pct, e3 := strconv.Atoi(a[1])
 		total, e4 := strconv.ParseUint(a[2], 10, 64)
@@ -290,6 +338,7 @@ func TestVerif_C10(t *testing.T) {
 		{"op", "tick", strconv.FormatInt(6*H+S, 10)}, {"op", "tick", strconv.FormatInt(18*H, 10)},
 		{"op", "cleanupttl", tti, ttl, "0", "0", "0"},
 		{"op", "cleanuppolicy", "50", "20", "15"},
+		{"op", "job", strconv.FormatInt(int64(30*time.Minute), 10), "0", ttl, "0", "0", "0"}, // TTI left to the default (6 h)
 	}
 	var rec func(cfg []string, prefix [][]string, d int)
 	rec = func(cfg []string, prefix [][]string, d int) {
@@ -378,12 +427,20 @@ func TestVerif_C10(t *testing.T) {
 				var lat int64
 				for {
 					lat = clock - []int64{0, S, 2 * S, 46 * 60 * S, 6*H - S, 6 * H, 6*H + S, 7 * H, 25 * H}[r.Intn(9)] - int64(r.Intn(50))*S
+					jitter := int64(r.Intn(1000)) * 1000000 // the sidecar keeps whole seconds
+					if r.Chance(1, 3) {
+						// exactly at / around the policy's class boundaries relative to the download time (mtime):
+						// |mtime - lat| in {1 s, 45 min} ± 1 s
+						lat = clock - age + []int64{S, -S, 2 * S, -2 * S, 2699 * S, 2700 * S, 2701 * S, -2699 * S, -2700 * S, -2701 * S}[r.Intn(10)]
+						jitter = 0
+					}
 					if !used[lat/S] {
 						used[lat/S] = true
+						lat += jitter
 						break
 					}
 				}
-				ops = append(ops, []string{"op", "setlat", n, strconv.FormatInt(lat+int64(r.Intn(1000))*1000000, 10)})
+				ops = append(ops, []string{"op", "setlat", n, strconv.FormatInt(lat, 10)})
 			}
 			if r.Chance(1, 3) {
 				ops = append(ops, []string{"op", "persist", n, verifh.Bool(r.Chance(3, 4))})
@@ -431,6 +488,16 @@ func TestVerif_C10(t *testing.T) {
 					ops = append(ops, []string{"op", "cleanupttl", tt, tl, "0", "0", "0"})
 				}
 				tr.Count("random_op_cleanupttl", 1)
+			case k < 86:
+				// the periodic job: default / explicit TTI, aggressive mode never (0, 101) or always (1) reached,
+				// lower threshold unset / 50 / 100
+				iv := int64(30 * time.Minute)
+				clock += iv
+				ttiJ := []string{"0", tti, strconv.FormatInt(20*60*S, 10)}[r.Intn(3)]
+				ops = append(ops, []string{"op", "job", strconv.FormatInt(iv, 10), ttiJ, []string{"0", ttl}[r.Intn(2)],
+					[]string{"0", "1", "1", "101"}[r.Intn(4)], []string{"0", strconv.FormatInt(2*H, 10)}[r.Intn(2)],
+					[]string{"0", "50", "100"}[r.Intn(3)]})
+				tr.Count("random_op_job", 1)
 			case k < 92:
 				ops = append(ops, []string{"op", "cleanuppolicy", strconv.Itoa(10 * r.Intn(11)), strconv.Itoa(5 + r.Intn(40)), strconv.Itoa(r.Intn(40))})
 				tr.Count("random_op_cleanuppolicy", 1)
